@@ -15,6 +15,7 @@ import (
 	"strings"
 
 	"github.com/cespare/xxhash"
+	"github.com/rs/zerolog"
 	"github.com/semafind/semadb/cluster"
 	"verifharness/vh"
 )
@@ -121,6 +122,8 @@ func evalOp(line string) string {
 			return "panic"
 		}
 		return encName(r)
+	case len(f) > 0 && (f[0] == "sync" || f[0] == "shsync" || f[0] == "req" || f[0] == "shreq"):
+		return evalSiteOp(line, f) // real cluster nodes, see sites.go
 	}
 	return "bad-op"
 }
@@ -243,8 +246,23 @@ func eqS(a, b []string) bool {
 	return true
 }
 
+func mix64(x uint64) uint64 {
+	x ^= x >> 33
+	x *= 0xff51afd7ed558ccd
+	x ^= x >> 33
+	x *= 0xc4ceb9fe1a85ec53
+	x ^= x >> 33
+	return x
+}
+
 func main() {
+	// the cluster lines open listeners: own network namespace (or, failing that, an exclusive lock)
+	vh.IsolateNet("c13")
+	zerolog.SetGlobalLevel(zerolog.Disabled)
 	seed := flag.Uint64("seed", 1, "PRNG seed")
+	syncScen := flag.Int("syncscen", 24, "clusters whose node database records are re-distributed by the real Sync")
+	shsyncScen := flag.Int("shsyncscen", 8, "clusters whose shard directories are re-distributed by the real Sync")
+	reqScen := flag.Int("reqscen", 80, "requests issued at a real node while some servers do not answer")
 	n := flag.Int("n", 600, "random routing cases")
 	shareKeys := flag.Int("sharekeys", 20000, "keys per server-set size in the share test")
 	dir := flag.String("out", "", "output directory")
@@ -254,7 +272,9 @@ func main() {
 		doReplay(*replay)
 		return
 	}
-	rng := vh.NewRng(*seed)
+	// vh.NewRng(s) and vh.NewRng(s+1) are the same SplitMix stream one step apart; as soon as two runs have
+	// consumed a different number of values they produce the same cases. Scramble the seed first.
+	rng := vh.NewRng(mix64(*seed))
 	o := vh.NewOut(*dir)
 	emit := func(kind, op string, nontrivial bool) string {
 		ans := evalOp(op)
@@ -471,10 +491,14 @@ func main() {
 		}
 	}
 
+	// ---------------------------------------------------------------- the call sites that route (real nodes)
+	sites := genSites(rng, o, sitesCfg{*syncScen, *shsyncScen, *reqScen})
+
 	for k, v := range sizes {
 		o.Stats[k] = v
 	}
 	o.Close(map[string]any{
+		"call_sites":             sites,
 		"rule":                   "distinct op lines with a non-empty input (hash of a non-empty string, routing over a non-empty server list)",
 		"routing_cases_judged":   judged,
 		"routing_cases_with_tie": skippedTies,
